@@ -898,6 +898,9 @@ func extraCommand(name string, args []string) bool {
 	case "pargate":
 		cmdParGate(args)
 		return true
+	case "parwalk":
+		cmdParWalk(args)
+		return true
 	case "fuzzdec64":
 		cmdFuzzDec64(args)
 		return true
